@@ -159,7 +159,9 @@ class World:
                 world.seen_snap.append(
                     (int(request.code), request.opt.block1, request.opt.block2,
                      opts_of(request), bytes(request.payload)))
-                hcode, hopts, hpayload = world.script_response
+                hcode, hopts, hpayload = world.script_response[:3]
+                if len(world.script_response) > 3 and world.script_response[3]:
+                    raise world.exception_of(world.script_response[3])
                 from aiocoap import Message
                 from aiocoap.numbers.optionnumbers import OptionNumber
                 from aiocoap.optiontypes import OpaqueOption
@@ -182,6 +184,18 @@ class World:
     def close(self):
         self.loop.cancel_all()
         self.loop.close()
+
+    def exception_of(self, name):
+        """The exception a scripted handler raises: a class of aiocoap.error (a RenderableError)
+        or a builtin exception, by name."""
+        import builtins
+        from aiocoap import error
+        cls = getattr(error, name, None)
+        if cls is None:
+            cls = getattr(builtins, name, None)
+        if not (isinstance(cls, type) and issubclass(cls, Exception)):
+            raise HarnessError(f"unknown exception {name!r} in a script")
+        return cls() if cls is not KeyError else cls("scripted")
 
     def remote(self, ep):
         """ep = (sockaddr tuple, pktinfo bytes or None, mps, mszx) -> fresh address object"""
